@@ -38,6 +38,7 @@ def scenario(sim):
     lat_c = (0.0, 0.01, 0.1, 0.5)[sim.choose(4)]
     lat_s = (0.0, 0.01, 0.1, 0.5)[sim.choose(4)]
     link = Link(sim, latency=(lat_c, lat_s))
+    link.p_split = (0.0, 0.0, 0.05, 0.3)[sim.choose(4)]     # packets arriving in two parts > one poll period apart
     plog = []
     thr = {}
     use_thresholds = sim.choose(4) == 0
